@@ -144,13 +144,15 @@ impl CacheObliviousSort {
     fn funnel_sort_recursive<T: Clone + Ord>(&mut self, data: &mut [T], k: usize) -> Result<()> {
         let n = data.len();
         
-        if n <= self.config.small_threshold {
+        if n <= self.config.small_threshold || n < 2 {
             self.insertion_sort(data);
             return Ok(());
         }
 
-        // Calculate optimal subdivision parameters
-        let sqrt_k = (k as f64).sqrt() as usize;
+        // Calculate optimal subdivision parameters. At least two non-empty chunks per level,
+        // otherwise the "sub-problem" is the problem itself and the recursion never ends.
+        let k = k.max(2).min(n);
+        let sqrt_k = cmp::max(2, (k as f64).sqrt() as usize);
         let chunk_size = n / k;
         
         // Recursively sort k sublists
